@@ -1,5 +1,7 @@
 //! C06 — Parquet pushdown returns exactly what filtering a full read would; RowSelection set algebra.
 //!
+//! front ends: the same reference oracle is applied to the push decoder and the async stream (cooperative
+//! I/O) for every configuration within 1 deviation x the full selection x offset x limit core.
 //! reader sub-engine: files (schemas x layouts) x option configurations (<= 2 deviations from the
 //! default in the non-core dimensions) x core (selection x offset x limit, complete per core class);
 //! oracle = reference pipeline on Vec<row> from an unrestricted read.
@@ -185,6 +187,8 @@ fn core_menus(core: Core, t: usize, k: u64) -> (Vec<u8>, Vec<(Option<usize>, Opt
 }
 
 struct Block {
+    /// true: push decoder + async stream (cooperative I/O) against the reference; false: sync reader
+    front: bool,
     file: usize,
     opts: Opts,
     ndev: usize,
@@ -220,6 +224,46 @@ pub fn build_files(n: usize, sids: &[usize], st: &mut Stats) -> Vec<FileCtx> {
         }
     }
     v
+}
+
+fn front_case_json(fc: &FileCtx, o: &Opts, front: &str, k: u64) -> Value {
+    json!({"sub": "front-end", "front_end": front, "variant": k, "file": file_json(&fc.f), "opts": opts_json(o)})
+}
+
+/// The reference-model oracle applied to the push decoder (cooperative environment: exactly the requested
+/// ranges are pushed) or the async stream (always-ready reader, metadata supplied up front). The C15 drivers are
+/// reused with an empty deviation script; `variant` rotates the API (try_decode / try_next_reader; poll_next /
+/// next_row_group x per-range / vectored fetch). Fingerprints are per front end: `c06:push:...`, `c06:async:...`.
+pub fn check_front(fc: &FileCtx, o: &Opts, front: &str, variant: u64, exp_rows: &Vec<Vec<V>>) -> Result<(), (String, String)> {
+    let r = catch(|| -> Result<(), (String, String)> {
+        if front == "push" {
+            let api = if variant % 2 == 0 { crate::c15::Api::Decode } else { crate::c15::Api::Reader };
+            crate::c15::run_push(fc, o, api, &[], exp_rows, false).map(|_| ())
+        } else {
+            let mode = crate::c15::AsyncMode { vectored: variant % 2 == 1, metadata_up_front: true, row_group_api: (variant / 2) % 2 == 1, spurious_poll: false };
+            crate::c15::run_async(fc, o, mode, &[], exp_rows).map(|_| ())
+        }
+    });
+    let map_fp = |fp: String| -> String {
+        // c15:error:<msg> -> c06:<front>:error:<msg>; c15:push:<x> / c15:async:<x> -> c06:push:<x> / c06:async:<x>
+        let fp = fp.replace("rows-differ-from-sync", "rows-differ");
+        if let Some(rest) = fp.strip_prefix("c15:error:") {
+            format!("c06:{front}:error:{rest}")
+        } else if let Some(rest) = fp.strip_prefix("c15:push:") {
+            format!("c06:push:{rest}")
+        } else if let Some(rest) = fp.strip_prefix("c15:async:") {
+            format!("c06:async:{rest}")
+        } else if let Some(rest) = fp.strip_prefix("wf:c15:") {
+            format!("wf:c06:{rest}")
+        } else {
+            format!("c06:{front}:{fp}")
+        }
+    };
+    match r {
+        Ok(Ok(())) => Ok(()),
+        Ok(Err((fp, msg))) => Err((map_fp(fp), msg)),
+        Err(p) => Err((format!("c06:{front}:{}", p.fingerprint()), format!("{p:?}"))),
+    }
 }
 
 fn case_json(fc: &FileCtx, o: &Opts) -> Value {
@@ -260,9 +304,23 @@ fn run_reader(ctx: &Ctx, st: &mut Stats) {
             let t = fc.chosen_rows(&o);
             let nsel = n_selections(core, t);
             *cfg_count.entry(format!("{ndev}-deviation configs")).or_insert(0u64) += 1;
-            blocks.push(Block { file: fi, opts: o, ndev, core, t, start: total, n: nsel });
-            total += nsel;
+            blocks.push(Block { front: false, file: fi, opts: o, ndev, core, t, start: 0, n: nsel });
         }
+    }
+    // push decoder / async stream: every configuration within 1 deviation x every selection x offset x limit
+    let fronts: Vec<Block> = blocks
+        .iter()
+        .filter(|b| b.ndev <= 1)
+        .map(|b| Block { front: true, file: b.file, opts: b.opts.clone(), ndev: b.ndev, core: Core::Full, t: b.t, start: 0, n: n_selections(Core::Full, b.t) })
+        .collect();
+    // order: sync <= 1 deviation, front ends, sync 2 deviations (a time cap cuts the 2-deviation tail first)
+    let split = blocks.iter().position(|b| b.ndev >= 2).unwrap_or(blocks.len());
+    let tail = blocks.split_off(split);
+    blocks.extend(fronts);
+    blocks.extend(tail);
+    for b in blocks.iter_mut() {
+        b.start = total;
+        total += b.n;
     }
     let starts: Vec<u64> = blocks.iter().map(|b| b.start).collect();
     let res = par_for(ctx, "reader", total, 8, |idx, st| {
@@ -276,6 +334,38 @@ fn run_reader(ctx: &Ctx, st: &mut Stats) {
         let bits = selection_bits(b.core, b.t, k);
         let (pres, ol) = core_menus(b.core, b.t, k);
         let pres: Vec<u8> = if bits.is_none() { vec![PRES_MIN] } else { pres };
+        if b.front {
+            // all 5 presentations at 0 deviations, one rotating presentation otherwise
+            let pres: Vec<u8> = if b.ndev == 0 || bits.is_none() { pres } else { vec![pres[(k % 5) as usize]] };
+            for &p in &pres {
+                for &(off, lim) in &ol {
+                    let mut o = b.opts.clone();
+                    o.sel = bits.as_ref().map(|bits| SelSpec { bits: bits.clone(), pres: p });
+                    o.offset = off;
+                    o.limit = lim;
+                    let (exp_rows, _, _) = fc.reference(&o);
+                    let nontrivial = (!exp_rows.is_empty() && exp_rows.len() < fc.f.nrows) as u64;
+                    for front in ["push", "async"] {
+                        let sub = if front == "push" { "push-decoder-full-core" } else { "async-stream-full-core" };
+                        st.add(sub, 1, nontrivial);
+                        match check_front(fc, &o, front, k, &exp_rows) {
+                            Ok(()) => st.outcome(&format!("{front}/{}", if exp_rows.is_empty() { "no-rows" } else if exp_rows.len() == fc.f.nrows { "all-rows" } else { "some-rows" })),
+                            Err((fp, msg)) => {
+                                st.outcome("violation");
+                                st.violate(idx, fp, format!("{} {} [{front}]: {}", fc.f.name, opts_json(&o), msg), || front_case_json(fc, &o, front, k));
+                            }
+                        }
+                    }
+                }
+            }
+            st.count(&format!("front-end blocks with {} deviations", b.ndev), (k == 0) as u64);
+            if k == b.n / 2 && b.ndev == 0 && b.file == 0 {
+                let mut o = b.opts.clone();
+                o.sel = bits.as_ref().map(|bits| SelSpec { bits: bits.clone(), pres: pres[0] });
+                st.sample("push-decoder-full-core", || front_case_json(fc, &o, "push", k));
+            }
+            return;
+        }
         let sub = match b.core {
             Core::Full => "reader-full-core",
             Core::Medium => "reader-medium-core",
@@ -322,6 +412,7 @@ fn run_reader(ctx: &Ctx, st: &mut Stats) {
         "reader_space".into(),
         json!({"files": files.len(), "rows_per_file": n, "schemas": SCHEMA_NAMES, "layouts": LAYOUTS.iter().map(|l| format!("{l:?}")).collect::<Vec<_>>(),
             "configs": cfg_count, "work_items(file x config x selection)": total,
+            "front_ends": "push decoder (cooperative: exactly the requested ranges are pushed; try_decode / try_next_reader alternate) and async stream (always-ready reader, metadata up front; poll_next / next_row_group x per-range / vectored alternate) against the same reference: every configuration within 1 deviation x every selection x offset{None,0,1,3,T,T+1} x limit{None,0,1,3,T}; 5 presentations at 0 deviations, one rotating presentation at 1 deviation",
             "core_classes": {"full": "every selection (2^T bit patterns + none) x 5 presentations x offset{None,0,1,3,T,T+1} x limit{None,0,1,3,T}",
                 "medium": "every selection x 1 presentation (rotating) x offset{None,1,3} x limit{None,1,3}",
                 "small": "12 pattern selections + none x 2 presentations x 4 (offset,limit) pairs"}}),
@@ -659,6 +750,19 @@ pub fn replay(case: &Value) -> Result<(), String> {
             }
             check_read(&fc, &o, false).map(|o| println!("reader agrees: {o:?}")).map_err(|(fp, m)| format!("{fp}: {m}"))
         }
+        "front-end" => {
+            let f = &case["file"];
+            let file = make_file(f["sid"].as_u64().unwrap() as usize, f["layout"].as_u64().unwrap() as usize, f["rows"].as_u64().unwrap() as usize);
+            let fc = FileCtx::new(file)?;
+            let o = opts_from_json(&case["opts"]);
+            let (rows, _, _) = fc.reference(&o);
+            println!("reference: {} rows", rows.len());
+            for r in &rows {
+                println!("  {r:?}");
+            }
+            let front = case["front_end"].as_str().unwrap_or("push");
+            check_front(&fc, &o, front, case["variant"].as_u64().unwrap_or(0), &rows).map(|_| println!("{front} front end agrees")).map_err(|(fp, m)| format!("{fp}: {m}"))
+        }
         "algebra-unary" => check_unary_alg(&bools(&case["bits"]), case["pres"].as_u64().unwrap() as usize).map_err(|(a, b)| format!("{a}: {b}")),
         "algebra-binary" => check_binary_alg(&bools(&case["a"]), case["pa"].as_u64().unwrap() as usize, &bools(&case["b"]), case["pb"].as_u64().unwrap() as usize)
             .map_err(|(a, b)| format!("{a}: {b}")),
@@ -684,7 +788,7 @@ pub fn run(ctx: &Ctx) -> ! {
         ctx,
         Level {
             category: "exploration",
-            rule: "nothing is sampled. reader: every (file, option configuration, selection, presentation, offset, limit) point of the stated product is one evaluation, all distinct by construction; it counts as non-trivial when the expected output is a proper non-empty subset of the file's rows. algebra: every (selection, presentation) and every ordered pair of (selection, presentation) over total length <= 6; non-trivial when the operands are non-empty".into(),
+            rule: "nothing is sampled. reader / push decoder / async stream: every (front end, file, option configuration, selection, presentation, offset, limit) point of the stated product is one evaluation, all distinct by construction; it counts as non-trivial when the expected output is a proper non-empty subset of the file's rows. algebra: every (selection, presentation) and every ordered pair of (selection, presentation) over total length <= 6; non-trivial when the operands are non-empty".into(),
             assumptions: vec![
                 "files of 8 (quick) / 10 (thorough) rows written by ArrowWriter; 6 schemas x 6 physical layouts; larger files and other encodings are not covered".into(),
                 "non-core option dimensions are combined up to 2 deviations from the default".into(),
